@@ -40,6 +40,11 @@ fn main() {
             let code = props::c18::child_main(&args[2]);
             std::process::exit(code);
         }
+        "kernels" => {
+            for k in kernels::all_kernels() {
+                println!("{}", k.name());
+            }
+        }
         "info" => {
             println!("{}", props::build_info());
         }
